@@ -50,7 +50,7 @@ Section Steps.
           mu = 0.5*dt*(alphas[k+1] - alphas[k])
           u = G_inv(u + gammas[k]*dt*h + mu*G(u), mu)
       (the lists are consumed in parallel; [al] is the tail of alphas from index k). *)
-  Fixpoint ls_loop (dt : F) (al be ga : list F) (h u : V) : V :=
+  Fixpoint ls_loop (dt : F) (al be ga : list F) (h u : V) {struct be} : V :=
     match be, ga, al with
     | b :: be', g :: ga', a0 :: ((a1 :: _) as al') =>
         let h' := Fx u +v b *v h in
@@ -171,7 +171,7 @@ Section Butcher.
   (** state: [hc] coefficients of h_k on F(Y_0..Y_k); [ue] explicit coefficients of
       u_k on F(Y_0..Y_{k-1}); implicit coefficients of u_k on G(Y_0..Y_k) = uprev ++ [ulast]. *)
   Fixpoint ls2b_loop (al be ga : list F) (hc ue uprev : list F) (ulast : F)
-      (AE AI : list (list F)) : list (list F) * list (list F) :=
+      (AE AI : list (list F)) {struct be} : list (list F) * list (list F) :=
     match be, ga, al with
     | b :: be', g :: ga', a0 :: ((a1 :: _) as al') =>
         let hc' := map (fmul b) hc ++ [1] in
